@@ -326,6 +326,11 @@ def scenario(ctx, i, rng):
                 return call(p.parse_path, payload, **kw)
 
             o = run_once()
+            o_nd = None
+            if method in ("parse_string", "parse_object", "parse_path") and i % 4 == 2 and env_mode != "off":
+                # the same call without the parser's defaults (source code defaults and default config files): what the
+                # environment and the call itself give is folded in the same order
+                o_nd = call(getattr(p, method), copy.deepcopy(payload), defaults=False, **kw)
             if i % 2 == 0:
                 call(p.format_help)  # showing the help (with the values of the default config files) is not a source
             # the fold starts from the defaults in the source code every time: the same sources on the same parser again,
@@ -356,6 +361,24 @@ def scenario(ctx, i, rng):
         tag = "parse_path-config-in-other-directory/" if attempt == "first" and "parse_path_in_other_directory" in kinds_present and default_files else ""
         if _compare(ctx, oo, exp_, srcs, dict(w, second_call=again) if attempt == "repeated" else w, method, attempt, tag):
             return
+    if o_nd is not None:
+        given = [s for s in sources if s[0] != "default_file"]
+        exp_nd = fold({}, [s[1] for s in given])
+        ctx.count("mon.fold_comparisons_without_defaults")
+        if not o_nd.accepted:
+            ctx.violation("fold", f"no-defaults/valid-sources-rejected/{method}/{o_nd.exc_type or o_nd.code}", dict(w, outcome=o_nd.brief()))
+            return
+        got = strip_prov(o_nd.value, {"cfg"}).as_dict()
+        for key, exp in exp_nd.items():
+            cur = got
+            for part in key.split("."):
+                cur = cur.get(part) if isinstance(cur, dict) else None
+            if isinstance(cur, Mapping):
+                cur = dict(cur)
+            if cur != exp or type(cur) is not type(exp):
+                kinds_for_key = [(s[0], a[1]) for s in given for a in s[1] if a[0] == key]
+                ctx.violation("fold", f"no-defaults/wrong-final-value/{KEYS[key][0]}/{env_mode}/history=" + ">".join(f"{k}:{kd}" for k, kd in kinds_for_key[-3:]), dict(w, defaults=False, key=key, expected=exp, got=cur, got_all=got))
+                return
     if i < 3:
         ctx.sample(dict(method=method, env_mode=env_mode, default_config_files=default_files, env=env, argv=argv, final={k: expected[k] for k in ("a", "l", "d")}))
 
